@@ -883,7 +883,7 @@ func c04Lambda(c *lib.Ctx) {
 			c.Report(sig, cs.sweep, map[string]any{
 				"part": "lambda", "sweep": cs.sweep, "input": form, "context": ctx, "ll": cs.sh.llLisp(), "args": c04ArgsLisp(cs.args),
 				"request": cs.request(), "observed": impl + "  ; " + msg, "expected": expected, "expected_from": from,
-				"relies_on": []string{"SlipVerif.Theorems.C04.bind_ok_iff", "SlipVerif.Theorems.C04.bind_values"},
+				"relies_on": []string{"SlipVerif.Theorems.C04.bind_ok_iff", "SlipVerif.Theorems.C04.bind_required/optional/rest/key/aux", "SlipVerif.Theorems.C04.parseLL_render"},
 				"shape": c04ShapeJSON(cs.sh), "argv": c04ArgsJSON(cs.args)})
 		}
 	}
